@@ -4,6 +4,7 @@
 -/
 import NutsModel.C03.Export
 import NutsModel.C03.Pem
+import NutsModel.C03.Jws
 import NutsModel.Facts.C03
 import NutsProofs.Props.C03
 import NutsProofs.Props.C03Api
@@ -447,6 +448,37 @@ theorem pem_other_block_is_nil_without_error :
 
 example : pemToPrivateKey C03.pemPrivateCases C03.pemPrivateKeyTypes (some "PRIVATE KEY") (.ok "*ecdsa.PrivateKey") = .key "*ecdsa.PrivateKey" := by decide
 example : "PRIVATE KEY" ∈ C03.pemPrivateCases.map (·.1) := by decide
+
+/-! ## the in-memory signer's kid guard (crypto/memory.go) -/
+
+/-- both entry points compare the requested kid with the key's OWN id (`kid != m.Key.KeyID()` -> ErrPrivateKeyNotFound) before
+    they set the `kid` header; the type has no other method that could decide it -/
+theorem fact_memory_signer_kid_guards :
+    C03.memoryKidStmts =
+      ["SignJWT:if kid != m.Key.KeyID() -> return:return \"\", ErrPrivateKeyNotFound", "SignJWT:headersLocal[\"kid\"] = kid",
+       "SignJWS:if kid != m.Key.KeyID() -> return:return \"\", ErrPrivateKeyNotFound", "SignJWS:headers[\"kid\"] = kid"] ∧
+    C03.memorySignerMethods = ["SignDPoP", "SignJWS", "SignJWT"] := by decide
+
+/-- **the in-memory signer signs only for its own key id**: for every key id (also the empty one of an unnamed JWK), every
+    requested kid and every header map, a JWS comes out only if the requested kid IS the key's id; without a `jwk` header
+    the signed `kid` header is that id, whatever the caller put there. An unnamed key never signs for a non-empty kid. -/
+theorem memory_signer_signs_only_for_own_key_id (keyId kid : String) (h out : Headers)
+    (hok : memSignJWSHeaders keyId h kid = .ok out) :
+    kid = keyId ∧ ((∀ rt id, hget (dedup h) "jwk" ≠ some (.jwk rt id)) → hget out "kid" = some (.str keyId)) := by
+  unfold memSignJWSHeaders at hok
+  obtain ⟨hf, _, hk⟩ := store_signjws_headers _ h out kid hok
+  have : kid = keyId := by simpa [memHolds] using hf
+  subst this
+  exact ⟨rfl, hk⟩
+
+/-- the same for `MemoryJWTSigner.SignJWT`: refused with key-not-found unless the requested kid is the key's own id -/
+theorem memory_signer_jwt_refuses_foreign_kid (keyId kid : String) (h : Headers) (hne : kid ≠ keyId) :
+    memSignJWTHeaders keyId h kid = .error .keyNotFound ∧ memSignJWSHeaders keyId h kid = .error .keyNotFound := by
+  have : memHolds keyId kid = false := by simp [memHolds, hne]
+  simp [memSignJWTHeaders, memSignJWSHeaders, storeSignJWTHeaders, storeSignJWSHeaders, this]
+
+example : memSignJWSHeaders "mem#1" [] "mem#1" = .ok [("kid", .str "mem#1")] := by decide
+example : memSignJWSHeaders "" [] "did:web:victim#0" = .error .keyNotFound := by decide
 
 /-! ## non-vacuity -/
 
